@@ -456,7 +456,7 @@ func init() {
 								blame = "drops-parens-of-default-operand"
 							case op && (k.name == "Func" || (k.name == "Expr" && y.kind != "UnaryOperator")):
 								blame = "drops-parens-of-operator-operand"
-							case y.kind == "Selector" && ch.kind == "BasicLiteral":
+							case (y.kind == "Selector" || y.kind == "TypeAssertion") && ch.kind == "BasicLiteral" && k.name == "Expr":
 								blame = "selector-on-number-literal-ambiguous"
 							case y.kind == "ChanType" && ch.kind == "ChanType":
 								blame = "chan-of-chan-ambiguous"
